@@ -150,8 +150,13 @@ type concInterp struct {
 	cv  *conv
 }
 
-func newConcInterp(input, tag string) *concInterp {
+func newConcInterp(sc *proto.ConcScript, tag string) *concInterp {
 	ci := &concInterp{cv: newConv()}
+	if sc.NilIO {
+		ci.p = prolog.New(nil, nil)
+		return ci
+	}
+	input := sc.Input
 	ci.p = prolog.New(strings.NewReader(strings.ReplaceAll(input, proto.ConcTagMark, tag)), &ci.out)
 	return ci
 }
@@ -274,19 +279,19 @@ func concSequential(pl *proto.ConcPayload, kind, tag string) (pass proto.ConcPas
 	switch kind {
 	case "alone": // highest index first: a script's baseline never runs after a lower-numbered script
 		for g := n - 1; g >= 0; g-- {
-			newConcInterp(pl.Scripts[g].Input, tag).runScript(pl, g, tag, &pass.G[g])
+			newConcInterp(&pl.Scripts[g], tag).runScript(pl, g, tag, &pass.G[g])
 		}
 	case "seq":
 		cis := make([]*concInterp, n)
 		for g := range cis {
-			cis[g] = newConcInterp(pl.Scripts[g].Input, tag)
+			cis[g] = newConcInterp(&pl.Scripts[g], tag)
 		}
 		for g := range cis {
 			cis[g].runScript(pl, g, tag, &pass.G[g])
 		}
 	default: // seq2
 		for g := 0; g < n; g++ {
-			newConcInterp(pl.Scripts[g].Input, tag).runScript(pl, g, tag, &pass.G[g])
+			newConcInterp(&pl.Scripts[g], tag).runScript(pl, g, tag, &pass.G[g])
 		}
 	}
 	return pass
@@ -391,7 +396,7 @@ func concGoroutine(pl *proto.ConcPayload, rep, g int, tag string, bar *spinBarri
 	slot.Start = atomic.AddInt64(clock, 1)
 
 	// creation (bootstrap load), loading, querying, writing: the script
-	ci := newConcInterp(sc.Input, tag)
+	ci := newConcInterp(sc, tag)
 	for i := range sc.Steps {
 		if sc.Steps[i].Barrier {
 			slot.Steps = append(slot.Steps, proto.ConcObs{})
